@@ -212,3 +212,17 @@ Definition rset_stmt (target s : list Z) : res (list Z) := lset target s true.
 (* LSET / RSET with the source given as an expression (evaluated first, errors propagate) *)
 Definition lset_src (target : list Z) (src : res (list Z)) (justify_right : bool) : res (list Z) :=
   do s <- src; lset target s justify_right.
+
+(* ---------------------------------------------------------------- storing a result when memory is short
+   StringSpace.store with its free-space reservation: the 255-byte limit is tested first (gen: statement
+   order checked), then DataSegment.check_free (regenerated) compares the free string space before and -
+   if that is not more than the size - after a garbage collection with the size.  free_before / free_after
+   are the two readings of DataSegment._get_free (the collector itself is C10's model). *)
+Definition store_mem (free_before free_after : Z) (l : list Z) : res (list Z) :=
+  do len <- strfn_store_check l;
+  do _ <- strfn_check_free free_before free_after len strfn_OUT_OF_STRING_SPACE;
+  Ok l.
+
+(* String.add when memory is short *)
+Definition concat_mem (free_before free_after : Z) (a b : list Z) : res (list Z) :=
+  store_mem free_before free_after (a ++ b).
